@@ -35,6 +35,7 @@ class DtypeFlow(Flow):
         self.f = finfo
         self.findings = []
         self.sinks = 0
+        self.attr_p = set()
 
     def copy(self, s):
         return dict(s)
@@ -49,6 +50,8 @@ class DtypeFlow(Flow):
     def kind(self, e, s):
         if isinstance(e, ast.Name):
             return s.get(e.id)
+        if isinstance(e, ast.Attribute) and isinstance(e.value, ast.Name) and e.value.id == 'self' and e.attr in self.attr_p:
+            return 'P'
         if isinstance(e, ast.Attribute) and e.attr in ('value', 'data', 'T', 'real'):
             return self.kind(e.value, s)
         if isinstance(e, ast.Subscript):
@@ -149,7 +152,40 @@ class DtypeFlow(Flow):
                 s[n.id] = None
         return s
 
+    def _stored_params(self):
+        """Attributes of the function's class that hold a caller's array as passed (`self.x = x`, `self.x = np.asarray(x)`):
+        they still have the caller's dtype."""
+        out = set()
+        cls = getattr(self.f, 'cls', None)
+        if cls is None:
+            return out
+        never = set()
+        for m in cls.all_functions():
+            params = set(m.params) - {'self', 'cls'}
+            floated = {t.id for st in ast.walk(m.node) if isinstance(st, ast.Assign) for t in st.targets
+                       if isinstance(t, ast.Name) and self._floaty_rhs(st.value)}
+            for st in ast.walk(m.node):
+                if not isinstance(st, ast.Assign):
+                    continue
+                for t in st.targets:
+                    if isinstance(t, ast.Attribute) and isinstance(t.value, ast.Name) and t.value.id == 'self':
+                        v = st.value
+                        if isinstance(v, ast.Call) and unparse(v.func, 0).split('.')[-1] in ('array', 'asarray', 'asanyarray') \
+                                and v.args and not any(k.arg == 'dtype' for k in v.keywords) and len(v.args) == 1:
+                            v = v.args[0]
+                        if isinstance(v, ast.Name) and v.id in params and v.id not in floated:
+                            out.add(t.attr)
+                        else:
+                            never.add(t.attr)
+        return out - never
+
+    @staticmethod
+    def _floaty_rhs(v):
+        src = unparse(v, 0)
+        return 'astype(float' in src or 'dtype=float' in src or 'dtype=np.float' in src or 'float(' in src
+
     def analyse(self):
+        self.attr_p = self._stored_params()
         init = {}
         doc = ast.get_docstring(self.f.node) or ''
         for p in self.f.params:
